@@ -29,8 +29,13 @@ type Config struct {
 	StubImpl, SkipEnsure, WithResets bool
 }
 
-// GenFunc makes a fresh Mocker for cfg and generates names into w.
-type GenFunc func(cfg Config, w io.Writer, names []string) error
+// Mocker is what moq.New returns, as far as the driver needs it.
+type Mocker interface {
+	Mock(w io.Writer, namePairs ...string) error
+}
+
+// NewFunc makes a fresh Mocker for cfg (moq.New).
+type NewFunc func(cfg Config) (Mocker, error)
 
 // Cell is one generation request.
 type Cell struct {
@@ -104,7 +109,16 @@ type Result struct {
 	WallS       float64        `json:"wall_s"`
 }
 
-var genFn GenFunc
+var newFn NewFunc
+
+// genFn makes a fresh Mocker and generates at once, as the CLI does.
+func genFn(cfg Config, w io.Writer, names []string) error {
+	m, err := newFn(cfg)
+	if err != nil {
+		return err
+	}
+	return m.Mock(w, names...)
+}
 
 // generate runs one generation under the given order tape and clock; the
 // result is the output bytes or a rendering of the error / panic.
@@ -169,8 +183,8 @@ func trunc(b []byte) string {
 }
 
 // Main is the entry point of the scratch-built driver.
-func Main(gen GenFunc) {
-	genFn = gen
+func Main(nf NewFunc) {
+	newFn = nf
 	if len(os.Args) < 2 {
 		fmt.Fprintln(os.Stderr, "usage: gensimdrv worker|replay ...")
 		os.Exit(2)
@@ -228,6 +242,8 @@ func workerMain(args []string) {
 			checkC14(c, *seed, *orders, *tier, *out, res, sigs, dumped)
 		case "C17":
 			checkWriter(c, *seed, *tier, *out, res, sigs)
+		case "C08":
+			checkResetsOnRequest(c, *seed, *tier, *out, res, sigs)
 		}
 	}
 	simhook.Install(nil)
@@ -322,6 +338,29 @@ func checkC14(c *Cell, seed uint64, orders int, tier, out string, res *Result, s
 			break
 		}
 	}
+	// fresh generator instances that coexist: another Mocker with different
+	// options is created between New and Mock; and two Mockers generate
+	// concurrently (two simulated tasks, writers that yield mid-write)
+	if got := interleaved(c, nil); !bytes.Equal(got, ref) {
+		report("depends-on-other-generator-instances", nil, 0, got)
+		return
+	}
+	res.Generations++
+	for k := 0; k < 2 && k < orders; k++ {
+		tp := tape.New(tape.Mix(base, uint64(5000+k)))
+		a, b := concurrentPair(c, tp)
+		res.Generations += 2
+		res.Nontrivial++
+		sigs[hashInts(fnvs(c.ID)^77, tp.Out)] = struct{}{}
+		if !bytes.Equal(a, ref) || !bytes.Equal(b, ref) {
+			got := a
+			if bytes.Equal(a, ref) {
+				got = b
+			}
+			reportConc(c, seed, tier, out, res, ref, got, tp.Out)
+			break
+		}
+	}
 	for s, n := range simhook.Sites {
 		res.Sites[s] += n
 	}
@@ -331,6 +370,123 @@ func checkC14(c *Cell, seed uint64, orders int, tier, out string, res *Result, s
 	if len(res.Samples) < 2 {
 		res.Samples = append(res.Samples, fmt.Sprintf("%s -> %s; %d permuted orders + clock jumps, all byte-identical", c, summary(ref), orders))
 	}
+}
+
+// flipped returns c's configuration with every boolean option inverted.
+func flipped(c *Cell) Config {
+	cfg := c.config()
+	cfg.StubImpl, cfg.SkipEnsure, cfg.WithResets = !cfg.StubImpl, !cfg.SkipEnsure, !cfg.WithResets
+	return cfg
+}
+
+// interleaved: New(c), New(other options), then c's Mock.
+func interleaved(c *Cell, tp *tape.Tape) (out []byte) {
+	return inSim(tp, func() []byte {
+		a, err := newFn(c.config())
+		if err != nil {
+			return []byte("ERROR: " + err.Error())
+		}
+		if _, err := newFn(flipped(c)); err != nil {
+			return []byte("ERROR: second instance: " + err.Error())
+		}
+		var buf bytes.Buffer
+		if err := a.Mock(&buf, c.Names...); err != nil {
+			return []byte("ERROR: " + err.Error())
+		}
+		return buf.Bytes()
+	})
+}
+
+// yieldingWriter copies what it is given in two halves with a sim point in
+// between, as a slow destination would.
+type yieldingWriter struct {
+	sim *simrt.Sim
+	buf bytes.Buffer
+}
+
+func (w *yieldingWriter) Write(p []byte) (int, error) {
+	h := len(p) / 2
+	w.buf.Write(p[:h])
+	w.sim.Point("writer: half of the bytes taken")
+	w.buf.Write(p[h:])
+	return len(p), nil
+}
+
+// concurrentPair generates c twice at the same time in two simulated tasks.
+func concurrentPair(c *Cell, tp *tape.Tape) (a, b []byte) {
+	simhook.Install(nil)
+	sim := simrt.New(tp, simrt.Strategy{})
+	sim.MaxEvents = 2000000
+	run := func(dst *[]byte) func() {
+		return func() {
+			defer func() {
+				if r := recover(); r != nil {
+					*dst = []byte(fmt.Sprintf("PANIC: %v", r))
+				}
+			}()
+			m, err := newFn(c.config())
+			if err != nil {
+				*dst = []byte("ERROR: " + err.Error())
+				return
+			}
+			sim.Point("instance created")
+			w := &yieldingWriter{sim: sim}
+			if err := m.Mock(w, c.Names...); err != nil {
+				*dst = []byte("ERROR: " + err.Error())
+				return
+			}
+			*dst = w.buf.Bytes()
+		}
+	}
+	sim.Go("gen-a", run(&a))
+	sim.Go("gen-b", run(&b))
+	if !sim.Run() {
+		return []byte("STUCK"), []byte("STUCK")
+	}
+	return a, b
+}
+
+// inSim runs f as the first task of a simulation drawing from tp.
+func inSim(tp *tape.Tape, f func() []byte) (out []byte) {
+	st := tp
+	if st == nil {
+		st = tape.Replay(nil)
+	}
+	simhook.Install(nil)
+	sim := simrt.New(st, simrt.Strategy{})
+	sim.MaxEvents = 2000000
+	sim.Go("moq", func() {
+		defer func() {
+			if r := recover(); r != nil {
+				out = []byte(fmt.Sprintf("PANIC: %v", r))
+			}
+		}()
+		out = f()
+	})
+	if !sim.Run() {
+		return []byte("STUCK")
+	}
+	return out
+}
+
+func reportConc(c *Cell, seed uint64, tier, out string, res *Result, ref, got []byte, tp []int) {
+	class := "concurrent-instances-interfere"
+	min, execs := minimiseTape(tp, func(t []int) bool {
+		a, b := concurrentPair(c, tape.Replay(t))
+		return !bytes.Equal(a, ref) || !bytes.Equal(b, ref)
+	})
+	a, b := concurrentPair(c, tape.Replay(min))
+	if bytes.Equal(a, ref) {
+		a = b
+	}
+	rp := &Replay{Property: "C14", Class: class, Signature: class, Engine: "gensim", VerifSeed: seed, Tier: tier, Cell: c, Tape: min, Shrink: execs, OrigTape: len(tp),
+		Findings: []Finding{{Prop: "C14", Class: class, Detail: fmt.Sprintf("%s: two generator instances running at the same time: output differs from the solo generation: %s", c, firstDiff(ref, a))}},
+		Trace:    []string{"solo: " + summary(ref), fmt.Sprintf("concurrent pair under schedule %v: %s", min, summary(a)), "first difference: " + firstDiff(ref, a)}}
+	rp.TraceHash = fmt.Sprintf("%016x", fnvs(string(ref))^fnvs(string(a)))
+	name := fmt.Sprintf("%s.viol.%s.conc.json", out, c.ID)
+	data, _ := json.MarshalIndent(rp, "", " ")
+	os.WriteFile(name, data, 0o644)
+	res.Violations = append(res.Violations, name)
 }
 
 func summary(b []byte) string {
@@ -540,6 +696,43 @@ func checkWriter(c *Cell, seed uint64, tier, out string, res *Result, sigs map[u
 	}
 }
 
+// checkResetsOnRequest (C08, library level): the reset API appears in the
+// output exactly when this Mocker was configured with WithResets, whatever
+// other Mockers exist in the process.
+func checkResetsOnRequest(c *Cell, seed uint64, tier, out string, res *Result, sigs map[uint64]struct{}) {
+	for variant, gen := range []func() []byte{func() []byte { return generate(c, nil, 0) }, func() []byte { return interleaved(c, nil) }} {
+		got := gen()
+		res.Generations++
+		res.Nontrivial++
+		sigs[fnvs(c.ID)+uint64(variant)] = struct{}{}
+		if bytes.HasPrefix(got, []byte("ERROR: ")) || bytes.HasPrefix(got, []byte("PANIC: ")) {
+			res.Errors++
+			continue
+		}
+		has := bytes.Contains(got, []byte(") ResetCalls() {"))
+		if has == c.Flags.WithResets {
+			continue
+		}
+		class := "reset-api-without-request"
+		if c.Flags.WithResets {
+			class = "reset-api-missing-on-request"
+		}
+		how := []string{"generated alone", "with another Mocker (opposite options) created between New and Mock"}[variant]
+		rp := &Replay{Property: "C08", Class: class, Signature: class, Engine: "gensim", VerifSeed: seed, Tier: tier, Cell: c,
+			Findings: []Finding{{Prop: "C08", Class: class, Detail: fmt.Sprintf("%s, %s: WithResets=%v but ResetCalls() present=%v", c, how, c.Flags.WithResets, has)}},
+			Trace:    []string{fmt.Sprintf("variant %d (%s): %s", variant, how, summary(got))}, Names: []string{fmt.Sprint(variant)}}
+		rp.TraceHash = fmt.Sprintf("%016x", fnvs(string(got)))
+		name := fmt.Sprintf("%s.viol.%s.json", out, c.ID)
+		data, _ := json.MarshalIndent(rp, "", " ")
+		os.WriteFile(name, data, 0o644)
+		res.Violations = append(res.Violations, name)
+		return
+	}
+	if len(res.Samples) < 2 {
+		res.Samples = append(res.Samples, fmt.Sprintf("%s: reset API present iff requested, alone and next to an opposite-options Mocker", c))
+	}
+}
+
 func replayMain(args []string) {
 	fl := flag.NewFlagSet("replay", flag.ExitOnError)
 	file := fl.String("file", "", "replay file")
@@ -564,9 +757,27 @@ func replayMain(args []string) {
 		Findings []Finding `json:"findings"`
 	}{}
 	switch rp.Property {
+	case "C08":
+		got := generate(rp.Cell, nil, 0)
+		if len(rp.Names) == 1 && rp.Names[0] == "1" {
+			got = interleaved(rp.Cell, nil)
+		}
+		has := bytes.Contains(got, []byte(") ResetCalls() {"))
+		out.Trace = []string{fmt.Sprintf("WithResets=%v, ResetCalls() present=%v", rp.Cell.Flags.WithResets, has)}
+		out.Same = has != rp.Cell.Flags.WithResets
 	case "C14":
 		ref := generate(rp.Cell, nil, 0)
 		got := generate(rp.Cell, tape.Replay(rp.Tape), rp.ClockDays)
+		switch rp.Class {
+		case "depends-on-other-generator-instances":
+			got = interleaved(rp.Cell, nil)
+		case "concurrent-instances-interfere":
+			a, b := concurrentPair(rp.Cell, tape.Replay(rp.Tape))
+			got = a
+			if bytes.Equal(a, ref) {
+				got = b
+			}
+		}
 		out.Trace = []string{"canonical: " + summary(ref), "replayed order: " + summary(got), "first difference: " + firstDiff(ref, got)}
 		out.Same = !bytes.Equal(ref, got)
 	case "C17":
